@@ -532,3 +532,18 @@ func (g *Gen) resolveFuncKey(key string) *ssa.Function {
 	}
 	return found
 }
+
+// theoryConsistency: the prelude axioms together with every spec axiom must be satisfiable (an inconsistent
+// theory would discharge everything). Checked on every run with the whole theory, unsliced.
+func (g *Gen) theoryConsistency() *VC {
+	g.resetVC()
+	g.bv = false
+	g.curTop = "theory"
+	g.axiomsInto(nil, nil)
+	// mention every theory symbol so that all prelude axioms have ground terms to work on
+	g.vc.decls = append(g.vc.decls, "(declare-const th$s Str)", "(declare-const th$t Str)", "(declare-const th$i Int)",
+		"(assert (= (slen (cat (sub th$s 0 th$i) (supd (zeros 3) 1 7))) (+ (slen th$t) (at (byte1 th$i) 0) (maplen$ th$i))))")
+	g.addObligation(&Obligation{Name: "theory.consistent", Func: "theory", Kind: "cover", Guard: "true", Goal: "false", Expect: "sat", NoSlice: true,
+		Src: "the prelude and all spec axioms are jointly satisfiable (no solver may answer unsat)"})
+	return g.vc
+}
